@@ -13,24 +13,33 @@ package f64
 // contracts; callers in blas/gonum, floats and mat are verified against the
 // contracts only, so the same clauses are what is assumed of the assembly.
 
+// noclash: the destination and a source either do not overlap or start at the
+// same cell (element k of the destination is then element k of the source, read
+// before it is written).
+//@ spec noclash(d []float64, s []float64) bool = d.rid != s.rid || d.off == s.off || d.off+len(d) <= s.off || s.off+len(s) <= d.off
+
 //@ spec strided(s []float64, i0 int, n int, inc int) bool = n <= 0 || (0 <= i0 && i0 < len(s) && 0 <= i0+(n-1)*inc && i0+(n-1)*inc < len(s))
 
 //@ func AxpyUnitary props: C01(frame) C07(safety) C08
 //@ requires len(y) >= len(x)
 //@ writes y[k] for k in 0..len(x)
+//@ ensures noclash(y, x) ==> forall(k, 0, len(x), same(y[k], old(y[k]) + alpha*old(x[k])))
 
 //@ func AxpyUnitaryTo props: C01(frame) C07(safety) C08
 //@ requires len(y) >= len(x) && len(dst) >= len(x)
 //@ writes dst[k] for k in 0..len(x)
+//@ ensures noclash(dst, x) && noclash(dst, y) ==> forall(k, 0, len(x), same(dst[k], alpha*old(x[k]) + old(y[k])))
 
 //@ func AxpyInc props: C01(frame) C07(safety) C08
 //@ requires int(n) >= 0 && strided(x, int(ix), int(n), int(incX)) && strided(y, int(iy), int(n), int(incY))
 //@ writes y[int(iy)+k*int(incY)] for k in 0..int(n)
+//@ ensures disjoint(x, y) && int(incY) != 0 ==> forall(k, 0, int(n), same(y[int(iy)+k*int(incY)], old(y[int(iy)+k*int(incY)]) + alpha*old(x[int(ix)+k*int(incX)])))
 
 //@ func AxpyIncTo props: C01(frame) C07(safety) C08
 //@ requires int(n) >= 0 && strided(x, int(ix), int(n), int(incX)) && strided(y, int(iy), int(n), int(incY))
 //@ requires strided(dst, int(idst), int(n), int(incDst))
 //@ writes dst[int(idst)+k*int(incDst)] for k in 0..int(n)
+//@ ensures disjoint(dst, x) && disjoint(dst, y) && int(incDst) != 0 ==> forall(k, 0, int(n), same(dst[int(idst)+k*int(incDst)], alpha*old(x[int(ix)+k*int(incX)]) + old(y[int(iy)+k*int(incY)])))
 
 //@ func DotUnitary props: C01(frame) C07(safety) C08
 //@ requires len(y) >= len(x)
@@ -42,18 +51,22 @@ package f64
 
 //@ func ScalUnitary props: C01(frame) C07(safety) C08
 //@ writes x[k] for k in 0..len(x)
+//@ ensures forall(k, 0, len(x), same(x[k], old(x[k]) * alpha))
 
 //@ func ScalUnitaryTo props: C01(frame) C07(safety) C08
 //@ requires len(dst) >= len(x)
 //@ writes dst[k] for k in 0..len(x)
+//@ ensures noclash(dst, x) ==> forall(k, 0, len(x), same(dst[k], alpha * old(x[k])))
 
 //@ func ScalInc props: C01(frame) C07(safety) C08
 //@ requires int(n) >= 0 && strided(x, 0, int(n), int(incX))
 //@ writes x[k*int(incX)] for k in 0..int(n)
+//@ ensures int(incX) != 0 ==> forall(k, 0, int(n), same(x[k*int(incX)], old(x[k*int(incX)]) * alpha))
 
 //@ func ScalIncTo props: C01(frame) C07(safety) C08
 //@ requires int(n) >= 0 && strided(x, 0, int(n), int(incX)) && strided(dst, 0, int(n), int(incDst))
 //@ writes dst[k*int(incDst)] for k in 0..int(n)
+//@ ensures disjoint(dst, x) && int(incDst) != 0 ==> forall(k, 0, int(n), same(dst[k*int(incDst)], alpha * old(x[k*int(incX)])))
 
 //@ func L1Norm props: C07(safety) C08
 //@ writes nothing
@@ -65,9 +78,11 @@ package f64
 //@ func Add props: C07(safety) C08
 //@ requires len(dst) >= len(s)
 //@ writes dst[k] for k in 0..len(s)
+//@ ensures noclash(dst, s) ==> forall(k, 0, len(s), same(dst[k], old(dst[k]) + old(s[k])))
 
 //@ func AddConst props: C07(safety) C08
 //@ writes x[k] for k in 0..len(x)
+//@ ensures forall(k, 0, len(x), same(x[k], old(x[k]) + alpha))
 
 //@ func CumSum props: C07(safety) C08
 //@ requires len(dst) >= len(s)
@@ -82,11 +97,13 @@ package f64
 //@ func Div props: C07(safety) C08
 //@ requires len(dst) >= len(s)
 //@ writes dst[k] for k in 0..len(s)
+//@ ensures noclash(dst, s) ==> forall(k, 0, len(s), same(dst[k], old(dst[k]) / old(s[k])))
 
 //@ func DivTo props: C07(safety) C08
 //@ requires len(dst) >= len(s) && len(t) >= len(s)
 //@ writes dst[k] for k in 0..len(s)
 //@ ensures sameSlice(result, dst)
+//@ ensures noclash(dst, s) && noclash(dst, t) ==> forall(k, 0, len(s), same(dst[k], old(s[k]) / old(t[k])))
 
 //@ func L1Dist props: C07(safety) C08
 //@ requires len(t) >= len(s)
